@@ -79,7 +79,9 @@ class RealAlg:
     def call1(self, n, a):
         t = self.uf[n](a.v); self.used.append((n, (a.v,), t))
         # rounding functions: plain mathematical facts, emitted as lemma instances (used by every feasibility query)
-        if n == 'round': self.lemmas += [t >= a.v - z3.RealVal('1/2'), t <= a.v + z3.RealVal('1/2'), z3.IsInt(t)]
+        if n == 'round':   # f64::round: nearest integer, ties away from zero
+            h = z3.RealVal('1/2')
+            self.lemmas += [z3.IsInt(t), z3.Implies(a.v >= 0, z3.And(t <= a.v + h, t > a.v - h)), z3.Implies(a.v < 0, z3.And(t >= a.v - h, t < a.v + h))]
         elif n == 'floor': self.lemmas += [t <= a.v, t > a.v - 1, z3.IsInt(t)]
         elif n == 'ceil': self.lemmas += [t >= a.v, t < a.v + 1, z3.IsInt(t)]
         return Fl(t)
